@@ -41,6 +41,8 @@ import CV.Fsm
 import CV.FsmFacts
 import CV.Proofs.Fsm
 import CV.Generated.FactsFsm
+import CV.Store.Env
+import CV.Proofs.StoreEnv
 
 namespace CV.Props.C01
 open CV CV.Fsm
@@ -616,5 +618,187 @@ theorem message_types_audited :
     messageTypes.length = 47 ∧
     messageTypes.map (·.2) = (List.range 46) ++ [128] ∧
     (messageTypes.map (·.1)).Nodup := by decide
+
+/-! ## 4. The obligations discharged for the store model (round 2)
+
+`CV.Store.apply` is the faithful model of the handlers of seven message types (register,
+deregister, KVS, session, tombstone reap, prepared query rows, txn). `CV/Store/Env.lean` makes its
+environment explicit (the server-local lock-delay map `loc`, fed by the server's clock) and
+`CV/Proofs/StoreEnv.lean` proves, function by function, that nothing replicated depends on it. -/
+
+section Store
+open CV.Store
+
+/-- One entry, two servers: equal replicated tables before, arbitrary different lock-delay maps
+    (and clocks) ⇒ equal replicated tables after and equal results. -/
+theorem apply_env_independent (s₁ s₂ : State) (h : s₁.repl = s₂.repl) (idx : Nat) (c : Cmd) :
+    (Store.apply s₁ idx c).1.repl = (Store.apply s₂ idx c).1.repl ∧
+    (Store.apply s₁ idx c).2 = (Store.apply s₂ idx c).2 :=
+  apply_sim (a := s₁) (b := s₂) h idx c
+
+theorem applyEnv_env_independent (e₁ e₂ : Store.Env) (s₁ s₂ : State) (h : s₁.repl = s₂.repl) (idx : Nat) (c : Cmd) :
+    applyEnv e₁ s₁ idx c = applyEnv e₂ s₂ idx c := by
+  have hs : Sim (setLoc s₁ e₁.loc) (setLoc s₂ e₂.loc) := by
+    show (setLoc s₁ e₁.loc).repl = (setLoc s₂ e₂.loc).repl
+    have : ∀ (s : State) (l : Local), (setLoc s l).repl = s.repl := fun s l => rfl
+    rw [this, this, h]
+  have := apply_sim hs idx c
+  simp only [applyEnv]
+  rw [show (Store.apply (setLoc s₁ e₁.loc) idx c).1.repl = (Store.apply (setLoc s₂ e₂.loc) idx c).1.repl from this.1, this.2]
+
+/-- **Replicas agree, for the store model.** Two replicas that start with the same replicated
+    tables and replay the same log of modelled commands — each seeing its own arbitrary
+    environment (clock, lock-delay map) at every log position — end with the same replicated
+    tables and return the same result for every command. Unbounded logs, no side condition. -/
+theorem replicas_agree_store (envs₁ envs₂ : Nat → Store.Env) (log : Log) :
+    ∀ (pos₁ pos₂ : Nat) (s₁ s₂ : State), s₁.repl = s₂.repl →
+      runEnv envs₁ pos₁ s₁ log = runEnv envs₂ pos₂ s₂ log := by
+  induction log with
+  | nil => intro _ _ s₁ s₂ h; simp only [runEnv]; rw [h]
+  | cons x rest ih =>
+    intro pos₁ pos₂ s₁ s₂ h
+    obtain ⟨idx, c⟩ := x
+    simp only [runEnv]
+    rw [applyEnv_env_independent (envs₁ pos₁) (envs₂ pos₂) s₁ s₂ h idx c]
+    rw [ih (pos₁ + 1) (pos₂ + 1) _ _ rfl]
+
+/-- The same for the store model's own `replay` (which threads `loc` through the log instead of
+    resetting it): the lock-delay maps the two servers start with never matter. -/
+theorem replay_repl_agree (log : Log) : ∀ (s₁ s₂ : State), s₁.repl = s₂.repl →
+    (Store.replay s₁ log).repl = (Store.replay s₂ log).repl ∧ replayResults s₁ log = replayResults s₂ log := by
+  induction log with
+  | nil => intro s₁ s₂ h; exact ⟨h, rfl⟩
+  | cons x rest ih =>
+    intro s₁ s₂ h
+    obtain ⟨idx, c⟩ := x
+    have ha := apply_sim (a := s₁) (b := s₂) h idx c
+    have := ih _ _ ha.1
+    simp only [Store.replay, List.foldl_cons, replayResults] at this ⊢
+    exact ⟨this.1, by rw [ha.2, this.2]⟩
+
+/-- non-vacuity: a log that really exercises the lock-delay map (a session with a lock delay holding
+    a key is destroyed), replayed by a server with an empty map and by one with junk in it -/
+example :
+    let log : Log := [
+      (5, .register ⟨⟨"n1", "", "10.0.0.1", 0, 0⟩, none, []⟩),
+      (6, .sessionCreate ⟨"5e550000-0000-0000-0000-000000000001", "n1", "s", "release", [], 15⟩),
+      (7, .kvLock ⟨[97], "=v", 0, "5e550000-0000-0000-0000-000000000001", 0, 0, 0⟩),
+      (8, .sessionDestroy "5e550000-0000-0000-0000-000000000001"),
+      (9, .kvLock ⟨[97], "=v", 0, "5e550000-0000-0000-0000-000000000001", 0, 0, 0⟩)]
+    let junk : State := { loc := ⟨[[1], [97], [200]]⟩ }
+    (Store.replay State.empty log).loc = ⟨[[97]]⟩ ∧
+    (Store.replay junk log).loc ≠ (Store.replay State.empty log).loc ∧
+    (Store.replay junk log).repl = (Store.replay State.empty log).repl ∧
+    replayResults State.empty log = [.ok, .ok, .bool true, .ok, .err .invalidSession] := by
+  decide
+
+/-- Every modelled family meets its `FamilyObligation` (invariant `True`: no side condition is
+    needed for these handlers), for every decoder and whatever the other tables `O` are. -/
+theorem store_family_obligation {O R' : Type} (d : Decoders) :
+    ∀ f ∈ (storeFamilies d : List (Table Store.Env (State × O) (Store.Result ⊕ R'))),
+      FamilyObligation (fun _ => True) f := by
+  have hh : ∀ (dec : Decoder), ∀ (e₁ e₂ : Store.Env) (s : State × O) (idx : Nat) (p : Bytes),
+      storeHandler (O := O) (R' := R') dec e₁ s idx p = storeHandler dec e₂ s idx p := by
+    intro dec e₁ e₂ s idx p
+    simp only [storeHandler]
+    cases dec p with
+    | none => rfl
+    | some c => simp only [applyEnv_env_independent e₁ e₂ s.1 s.1 rfl idx c]
+  intro f hf
+  simp only [storeFamilies, List.mem_cons, List.not_mem_nil, or_false] at hf
+  refine ⟨?_, fun _ _ _ _ _ _ _ _ _ _ => trivial⟩
+  intro x hx e₁ e₂ s idx p _
+  rcases hf with rfl | rfl | rfl | rfl | rfl | rfl <;>
+    simp only [catalogFamily, kvFamily, sessionFamily, tombstoneFamily, pqFamily, txnFamily,
+      List.mem_cons, List.not_mem_nil, or_false] at hx
+  · rcases hx with rfl | rfl <;> exact hh _ e₁ e₂ s idx p
+  all_goals (subst hx; exact hh _ e₁ e₂ s idx p)
+
+/-- **The dispatch-level theorem with the modelled families concrete.** The consul dispatch table
+    = the seven handlers of the store model (slots 0,1,2,3,5,7,8, any decoders) followed by the
+    handlers of the not yet modelled families `rest` (ACL, config entries, intentions, CA, peering,
+    …) over arbitrary further tables `O`. If `rest` meets its obligation — the part still open —
+    two replicas replaying the same raw log under different environments compute the same trace. -/
+theorem replicas_agree_consul_store {O R' : Type} (d : Decoders)
+    (rest : Table Store.Env (State × O) (Store.Result ⊕ R'))
+    (hrest : FamilyObligation (fun _ => True) rest) (ced : Bool)
+    (envs₁ envs₂ : Nat → Store.Env) (s : State × O) (log : List (Nat × Bytes)) :
+    run ((storeFamilies d).flatten ++ rest) ced envs₁ s log =
+    run ((storeFamilies d).flatten ++ rest) ced envs₂ s log :=
+  (replicas_agree_inv (fun _ => True) _
+    (envIndependentOn_append _ _ _ (envIndependentOn_of_families _ _ (store_family_obligation d)) hrest)
+    ced envs₁ envs₂ s trivial log).1
+
+/-- the store families occupy exactly the audited slots of their message types -/
+theorem store_family_slots {O R' : Type} (d : Decoders) :
+    slots ((storeFamilies d).flatten : Table Store.Env (State × O) (Store.Result ⊕ R')) = [0, 1, 2, 3, 5, 7, 8] ∧
+    [0, 1, 2, 3, 5, 7, 8] = (expectedSlots.filter fun x =>
+      Consul.families.lookup x.2.1 ∈ [some "catalog", some "kv", some "session", some "tombstone",
+        some "prepared-query", some "txn"]).map (·.1) := by
+  constructor
+  · rfl
+  · decide
+
+/-- **A rejected command leaves the state unchanged** — the whole store, `loc` included: a command
+    answered with an error (for a transaction: with a non-empty error list) is not committed.
+    (Lock delays of an aborted transaction are not applied either: /repo commit 6f192dd.) -/
+theorem rejected_leaves_state (s : State) (idx : Nat) (c : Cmd) (h : (Store.apply s idx c).2.isErr = true) :
+    (Store.apply s idx c).1 = s := by
+  have hS : ∀ (x : Except Err State), (liftS s x).2.isErr = true → (liftS s x).1 = s := by
+    intro x hx; cases x <;> simp_all [liftS, Store.Result.isErr]
+  have hB : ∀ (x : Except Err (State × Bool)), (liftB s x).2.isErr = true → (liftB s x).1 = s := by
+    intro x hx
+    cases x with
+    | error e => rfl
+    | ok p => simp [liftB, Store.Result.isErr] at hx
+  cases c <;> simp only [Store.apply] at h ⊢
+  case kvDeleteTree => simp [Store.Result.isErr] at h
+  case reap => simp [Store.Result.isErr] at h
+  case pqDelete => simp [Store.Result.isErr] at h
+  case deregister =>
+    split at h <;> rename_i h1
+    · simp only [h1, if_true]; exact hS _ h
+    · simp only [h1, if_false]
+      split at h <;> rename_i h2
+      · simp only [h2, if_true]; exact hS _ h
+      · simp only [h2, if_false]; exact hS _ h
+  case txn ops =>
+    simp only [txnRW] at h ⊢
+    generalize txnLoop idx ops 0 s [] [] = t at h ⊢
+    obtain ⟨s', rs, es⟩ := t
+    dsimp only at h ⊢
+    split at h
+    · simp [Store.Result.isErr] at h
+    · rename_i he; simp only [he]; rfl
+  all_goals first | exact hS _ h | exact hB _ h
+
+/-- the same seen through the environment wrapper: replicated tables unchanged -/
+theorem rejected_leaves_state_env (env : Store.Env) (s : State) (idx : Nat) (c : Cmd)
+    (h : (applyEnv env s idx c).2.isErr = true) : (applyEnv env s idx c).1 = s.repl := by
+  simp only [applyEnv] at h ⊢
+  rw [rejected_leaves_state _ idx c h]; rfl
+
+/-- a refused check-and-set / lock / unlock (`false`) does not commit either -/
+theorem refused_leaves_state (s : State) (idx : Nat) (c : Cmd) (h : (Store.apply s idx c).2 = .bool false) :
+    (Store.apply s idx c).1 = s := by
+  have hB : ∀ (x : Except Err (State × Bool)), (liftB s x).2 = .bool false → (liftB s x).1 = s := by
+    intro x hx
+    cases x with
+    | error e => rfl
+    | ok p => obtain ⟨s', b⟩ := p; cases b <;> simp_all [liftB]
+  have hS : ∀ (x : Except Err State), (liftS s x).2 ≠ .bool false := by
+    intro x; cases x <;> simp [liftS]
+  cases c <;> simp only [Store.apply] at h ⊢
+  case deregister => split at h; exact absurd h (hS _); split at h <;> exact absurd h (hS _)
+  case txn ops => revert h; generalize txnRW s idx ops = t; obtain ⟨a, b, c⟩ := t; simp
+  all_goals first | exact hB _ h | exact absurd h (hS _) | simp at h
+
+/-- non-vacuity of `rejected_leaves_state`: rejected commands exist and so do accepted ones -/
+example : (Store.apply State.empty 5 (.kvLock ⟨[97], "=v", 0, "nope", 0, 0, 0⟩)).2.isErr = true ∧
+          (Store.apply State.empty 5 (.kvSet ⟨[97], "=v", 0, "", 0, 0, 0⟩)).2.isErr = false ∧
+          (Store.apply State.empty 5 (.txn [.kv .set ⟨[97], "=v", 0, "", 0, 0, 0⟩, .kv .get ⟨[98], "", 0, "", 0, 0, 0⟩])).2.isErr = true := by
+  decide
+
+end Store
 
 end CV.Props.C01
